@@ -155,7 +155,10 @@ LIFT_LINES = ['add eax, ebx', 'adc eax, 5', 'sub ecx, edx', 'sbb al, bl', 'and e
               'setz al', 'setl bl', 'cmovz eax, ebx', 'cmovg ecx, edx', 'lahf', 'sahf', 'push eax', 'pop ebx', 'mov eax, [ebx+4]',
               'mov [ebx], al', 'bswap eax', 'stc', 'cmc',
               # a conditional of constants in a middle / upper slot of a composition
-              'setz ah', 'setl bh', 'seta ch', 'setz BYTE PTR [ebx]', 'cmovz ax, bx']
+              'setz ah', 'setl bh', 'seta ch', 'setz BYTE PTR [ebx]', 'cmovz ax, bx',
+              # shifts and rotates of 8/16-bit operands with counts up to and beyond the operand width (cl drawn from the boundary values)
+              'rcl al, cl', 'rcr bl, cl', 'rcl ax, cl', 'rcr dx, cl', 'rcl al, 9', 'rcr ax, 17', 'rol al, cl', 'ror ax, cl', 'rol bl, 8', 'ror dx, 16',
+              'shl al, cl', 'shr ax, cl', 'sar bl, cl', 'shr al, 9', 'sar ax, 17', 'shld ax, bx, cl', 'shrd ax, bx, 17']
 
 
 def _lift_cases(args):
